@@ -65,7 +65,14 @@ def _role_param(fn, qual: str, role: str):
     parameter that is not in the recorded signature and has a constant default is read by the engine as an option at its default
     (specialise pass) - its uses in the body are constants then, so looking the role up by position would find a parameter that the body
     no longer refers to.  A renamed documented parameter therefore means `no obligation / undecided`, never a violation."""
+    if (qual, role) in _ADDED_OPTIONS:
+        # a parameter of this name that was added after the reference signatures were recorded is an option read at its default: the
+        # body refers to the default then (a constant), not to the parameter - the routine has no documented parameter of this role
+        return None
     return role if role in param_names(fn) else None
+
+
+_ADDED_OPTIONS: set = set()
 
 
 def _record_type_fields(fn, f, repo=None, mi=None):
@@ -2571,6 +2578,8 @@ class _PolyTable:
 # ---------------------------------------------------------------------------------------------------
 def run(ck, repo: Repo, tier: str):
     cfgs = {}
+    _ADDED_OPTIONS.clear()
+    _ADDED_OPTIONS.update((q_, p_) for q_, p_, _d in getattr(repo, "specialised", []))
     res = Resolver(repo)
     nf = NF(repo)
     # every environment loop is its own group: a loop written in a form the loop reader does not read leaves the others judged
